@@ -527,12 +527,22 @@ func (c *Ctx) Div(a, b *Term) *Term {
 	if b.ival != nil && b.ival.Cmp(big.NewInt(1)) == 0 {
 		return a
 	}
+	if b.ival == nil {
+		// a divisor that is not a numeral makes the query nonlinear (the solvers switch to their nonlinear engines for
+		// the whole query and time out): such quotients are uninterpreted. Code and specification use the same symbol,
+		// so "the stored value is this quotient" is still decided (by congruence); facts that need the arithmetic
+		// meaning of a variable-divisor quotient are not derivable (sound: fewer facts, never more).
+		return c.Apply(c.Fun("vdiv", []Sort{SInt, SInt}, SInt), a, b)
+	}
 	return c.mk("div", SInt, a, b)
 }
 
 func (c *Ctx) Mod(a, b *Term) *Term {
 	if a.ival != nil && b.ival != nil && b.ival.Sign() > 0 {
 		return c.BigInt(new(big.Int).Mod(a.ival, b.ival))
+	}
+	if b.ival == nil {
+		return c.Apply(c.Fun("vmod", []Sort{SInt, SInt}, SInt), a, b)
 	}
 	return c.mk("mod", SInt, a, b)
 }
